@@ -119,7 +119,8 @@ Lemma C_sleep_done t : C (sleep_done t).
 Proof. intros w. unfold sleep_done. destruct (get_task t w) as [tk|]; [|apply cext_refl]. destruct (tk_done tk); [apply cext_refl|]. eapply cext_trans; [apply C_put_task|apply C_call_soon]. Qed.
 Lemma C_queue_send e d : C (queue_send e d).
 Proof.
-  intros w. unfold queue_send. destruct (t_collect (cfg w) =? 0); [apply C_neutral, n_send_sd|].
+  intros w0. unfold queue_send. apply (cext_trans _ (ghost (GQueue e d) w0)); [apply C_neutral, n_ghost|]. generalize (ghost (GQueue e d) w0). clear w0.
+  intros w. unfold queue_core. destruct (t_collect (cfg w) =? 0); [eapply cext_trans; [apply C_neutral, n_ghost|apply C_neutral, n_send_sd]|].
   match goal with |- cext w (match ?o with Some _ => _ | None => _ end) => destruct o as [[c co]|] end; [apply C_set_collectors|].
   destruct (call_later (t_collect (cfg w)) (HCollector (next_id w)) w) as [tid w1] eqn:Ec.
   assert (w1 = snd (call_later (t_collect (cfg w)) (HCollector (next_id w)) w)) as -> by (rewrite Ec; reflexivity).
@@ -128,7 +129,7 @@ Qed.
 Lemma C_collector_timeout c : C (collector_timeout c).
 Proof.
   intros w. unfold collector_timeout. destruct (aget N.eqb c (collectors w)); [|apply cext_refl].
-  eapply cext_trans; [apply C_set_collectors|apply C_neutral, n_send_sd].
+  eapply cext_trans; [|apply C_neutral, n_send_sd]. eapply cext_trans; [apply C_neutral, n_ghost|apply C_set_collectors].
 Qed.
 
 (* ---- composite functions *)
@@ -446,7 +447,7 @@ Proof.
   destruct (open_collector w d) as [[c co]|] eqn:Eo.
   - pose proof (queue_send_append e d w c co Hc Eo) as Hq. fold w' in Hq.
     apply (Hfin c (mkColl (co_dest co) (co_data co ++ [e]) false)).
-    + unfold open_collector. rewrite Hq. cbn [queues collectors set_collectors].
+    + unfold open_collector. rewrite Hq. cbn [queues collectors set_collectors ghost set_glog].
       unfold open_collector in Eo. destruct (aget dest_eqb d (queues w)) as [c0|]; [|discriminate].
       destruct (aget N.eqb c0 (collectors w)) as [co0|]; [|discriminate]. destruct (co_done co0); [discriminate|].
       injection Eo as -> ->. rewrite (aget_aset_same N.eqb N.eqb_eq). reflexivity.
